@@ -14,7 +14,7 @@ MODES = [(False, False), (False, True), (True, False), (True, True)]
 
 class C08(ProgramProperty):
     id = "C08"
-    theorems = []
+    theorems = ["C08_compress", "C08_expand", "C08_compress_or_standardize", "C08_expand_or_standardize", "C08_standardize_prefix", "C08_standardize_curie", "C08_standardize_uri", "C08_expand_pair", "C08_expand_reference", "C08_expand_all", "C08_expand_pair_all", "C08_parse", "C08_parse_uri", "C08_parse_curie"]
     lean_modules = ["CuriesVerif.Properties.C08"]
     rule = ("one case = one strict converter and 4 input strings from a malformed-first stream ('', no delimiter, "
             "only the delimiter, delimiter first / last, unknown prefix, known CURIE, known URI), each sent through "
